@@ -242,6 +242,13 @@ func (r *runner) childCtx(parent context.Context, kind string, variant int, run 
 		return "fresh-gin"
 	case 3: // dubbo filter: consumer side puts the xid into the attachments, provider side reads it
 		f := sdubbo.GetDubboTransactionFilter()
+		if xid == "" && variant%16 >= 8 {
+			// an outbound call whose invocation already carries an xid (attachments forwarded from an inbound
+			// request) made from a scope that runs without a transaction: whatever the filter does for the
+			// callee, the caller's own context must stay as it is (the events after this one show it)
+			pre := map[string]interface{}{constant.SeataXidKey: "10.9.9.9:8091:777", constant.XidKey: "10.9.9.9:8091:777"}
+			f.Invoke(parent, &stubInvoker{fn: func(ctx context.Context, inv protocol.Invocation) {}}, invocation.NewRPCInvocation("m", nil, pre))
+		}
 		att := map[string]interface{}{}
 		inv1 := invocation.NewRPCInvocation("m", nil, att)
 		f.Invoke(parent, &stubInvoker{fn: func(ctx context.Context, inv protocol.Invocation) {}}, inv1)
